@@ -620,11 +620,43 @@ func c04(p *core.Program, r *core.Report) {
 				r.OK(rule1, key, pos, true, "the count was checked against the limit inside "+srcName+" before it was returned")
 				continue
 			}
-			// documented exemption: WKB GeometryCollection part loop
-			if kind == "loop" && short(fn) == "encoding/wkb.Read" && what == "GeometryCollection parts" && len(guards) == 0 {
+			// documented exemption: WKB GeometryCollection part loop (also when the loop sits in a helper or function
+			// literal of the package that is handed the count and does nothing with it but bound a loop)
+			loopOnlyCall := func(k string) bool {
+				if !strings.HasPrefix(k, "call:") {
+					return false
+				}
+				for _, sk := range byKind[k] {
+					cl, ok := sk.Instr.(*ssa.Call)
+					if !ok {
+						return false
+					}
+					var callee *ssa.Function
+					if mc, isMC := cl.Call.Value.(*ssa.MakeClosure); isMC {
+						callee, _ = mc.Fn.(*ssa.Function)
+					} else {
+						callee = cl.Call.StaticCallee()
+					}
+					if callee == nil || core.FnPkgPath(topLevel(callee)) != core.FnPkgPath(fn) {
+						return false
+					}
+					for ai, a := range cl.Call.Args {
+						if !taint[a] || ai >= len(callee.Params) {
+							continue
+						}
+						for _, inner := range eng.SizeSinks(eng.IntFlow(callee.Params[ai]), paramSinks) {
+							if inner.Kind != "loop" {
+								return false
+							}
+						}
+					}
+				}
+				return true
+			}
+			if (kind == "loop" || loopOnlyCall(kind)) && short(fn) == "encoding/wkb.Read" && what == "GeometryCollection parts" && len(guards) == 0 {
 				onlyLoops := true
 				for _, k2 := range kinds {
-					if k2 != "loop" {
+					if k2 != "loop" && !loopOnlyCall(k2) {
 						onlyLoops = false
 					}
 				}
@@ -835,7 +867,7 @@ func readerDiscipline(p *core.Program, r *core.Report, rule string) {
 
 // membersThroughPush (C04): what the readers do with the member geometries they decode recursively.
 func membersThroughPush(p *core.Program, r *core.Report, rule string) {
-	r.Rule(rule, "in wkb.Read and ewkb.Read (and the helpers of their packages) a member geometry decoded by a recursive Read call is only type-asserted, handed to a Push method, compared with nil, or put into an error value: Push is where a member whose layout or stride differs from the container's is rejected, so a reader that takes the member's coordinates or offsets itself (FlatCoords, Ends, Coords ...) assembles containers whose stride does not match their data from a crafted input", 8)
+	r.Rule(rule, "in wkb.Read and ewkb.Read (and the helpers of their packages) a member geometry decoded by a recursive Read call is only type-asserted, handed to a Push method, compared with nil, or put into an error value: Push is where a member whose layout or stride differs from the container's is rejected, so a reader that takes the member's coordinates or offsets itself (FlatCoords, Ends, Coords ...) assembles containers whose stride does not match their data from a crafted input", 4)
 	for _, rel := range []string{"encoding/wkb", "encoding/ewkb"} {
 		read := p.SSAFunc(rel, "Read")
 		if read == nil {
